@@ -18,6 +18,7 @@ import (
 	"massnet.org/mass-wallet/masswallet/db/ldb"
 )
 
+//go:norace
 func init() { Runners["C11"] = runC11 }
 
 type dbModel struct {
@@ -25,10 +26,12 @@ type dbModel struct {
 	kv      map[string]map[string]string // path -> key -> value
 }
 
+//go:norace
 func newDBModel() *dbModel {
 	return &dbModel{buckets: map[string]bool{}, kv: map[string]map[string]string{}}
 }
 
+//go:norace
 func (m *dbModel) clone() *dbModel {
 	c := newDBModel()
 	for b := range m.buckets {
@@ -44,6 +47,7 @@ func (m *dbModel) clone() *dbModel {
 	return c
 }
 
+//go:norace
 func (m *dbModel) deleteBucket(path string) {
 	for b := range m.buckets {
 		if b == path || strings.HasPrefix(b, path+"/") {
@@ -53,6 +57,7 @@ func (m *dbModel) deleteBucket(path string) {
 	}
 }
 
+//go:norace
 func (m *dbModel) children(path string) []string {
 	var out []string
 	for b := range m.buckets {
@@ -68,6 +73,7 @@ func (m *dbModel) children(path string) []string {
 	return out
 }
 
+//go:norace
 func (m *dbModel) sortedPaths() []string {
 	var out []string
 	for b := range m.buckets {
@@ -80,6 +86,7 @@ func (m *dbModel) sortedPaths() []string {
 var c11Names = []string{"a", "b", "1", "2", "x1", "bb"}
 var c11KeyParts = []string{"a", "_", "1", "2", "b", "\x00", "\xff", "k", "1_", "b_1_", "_a"}
 
+//go:norace
 func c11Key(t *Tape) []byte {
 	n := t.Weighted([]int{1, 8, 6, 3})
 	var sb strings.Builder
@@ -103,6 +110,7 @@ type c11State struct {
 	pool map[string][]string
 }
 
+//go:norace
 func (s *c11State) poolKey(t *Tape, path string) []byte {
 	if p := s.pool[path]; len(p) > 0 && t.Bool(80) {
 		return []byte(p[t.Int(len(p))])
@@ -114,12 +122,14 @@ func (s *c11State) poolKey(t *Tape, path string) []byte {
 	return k
 }
 
+//go:norace
 func (s *c11State) logf(format string, a ...interface{}) {
 	if len(s.ops) < 400 {
 		s.ops = append(s.ops, fmt.Sprintf(format, a...))
 	}
 }
 
+//go:norace
 func (s *c11State) fail(class, format string, a ...interface{}) {
 	tail := s.ops
 	if len(tail) > 25 {
@@ -129,6 +139,8 @@ func (s *c11State) fail(class, format string, a ...interface{}) {
 }
 
 // openBucket walks a model path in tx.
+//
+//go:norace
 func openBucket(tx interface {
 	TopLevelBucket(string) mwdb.Bucket
 }, path string) mwdb.Bucket {
@@ -145,6 +157,7 @@ func openBucket(tx interface {
 
 type kvPair struct{ k, v string }
 
+//go:norace
 func renderPairs(ps []kvPair) []string {
 	sort.Slice(ps, func(i, j int) bool { return ps[i].k < ps[j].k })
 	out := make([]string, len(ps))
@@ -154,6 +167,7 @@ func renderPairs(ps []kvPair) []string {
 	return out
 }
 
+//go:norace
 func sortedEntries(es []*mwdb.Entry) []string {
 	var ps []kvPair
 	for _, e := range es {
@@ -162,6 +176,7 @@ func sortedEntries(es []*mwdb.Entry) []string {
 	return renderPairs(ps)
 }
 
+//go:norace
 func modelEntries(kv map[string]string, prefix []byte) []string {
 	var ps []kvPair
 	for k, v := range kv {
@@ -173,6 +188,8 @@ func modelEntries(kv map[string]string, prefix []byte) []string {
 }
 
 // checkRead compares a full read-only view of the database with model m.
+//
+//go:norace
 func (s *c11State) checkRead(m *dbModel, what string) bool {
 	ok := true
 	err := mwdb.View(s.db, func(tx mwdb.ReadTransaction) error {
@@ -246,6 +263,7 @@ func (s *c11State) checkRead(m *dbModel, what string) bool {
 	return ok
 }
 
+//go:norace
 func (s *c11State) open(create bool) error {
 	db, err := ldb.OpenWithStorage(s.disk, create, s.wbuf, 0)
 	if err != nil {
@@ -255,6 +273,7 @@ func (s *c11State) open(create bool) error {
 	return nil
 }
 
+//go:norace
 func runC11(w *World, p map[string]int) {
 	t := w.Plan
 	s := &c11State{w: w, disk: NewSimDisk(), model: newDBModel(), wbuf: 4 << 20, pool: map[string][]string{}}
@@ -405,6 +424,7 @@ func runC11(w *World, p map[string]int) {
 
 var errCrashNow = errors.New("crash now")
 
+//go:norace
 func lastN(s []string, n int) []string {
 	if len(s) > n {
 		return s[len(s)-n:]
@@ -414,6 +434,8 @@ func lastN(s []string, n int) []string {
 
 // writeOp draws one operation inside a write transaction and applies it to
 // both the store and the working model, comparing results.
+//
+//go:norace
 func (s *c11State) writeOp(t *Tape, tx mwdb.DBTransaction, work *dbModel) {
 	paths := work.sortedPaths()
 	pick := func() string {
@@ -617,6 +639,8 @@ func (s *c11State) writeOp(t *Tape, tx mwdb.DBTransaction, work *dbModel) {
 
 // readOnlyProbe checks range iteration, prefix iteration and seek in a
 // read-only transaction against the committed model.
+//
+//go:norace
 func (s *c11State) readOnlyProbe(t *Tape) {
 	paths := s.model.sortedPaths()
 	if len(paths) == 0 {
